@@ -36,6 +36,11 @@ def cmd_run(a):
     checks = a.checks.split(",") if a.checks else [m["property"]]
     with Scratch("b" + a.id) as wt:
         rc_ap, out = sh(["git", "apply", os.path.join(d, "patch.diff")], cwd=wt)
+        if rc_ap != 0:      # the tree moved on since the change was written: try a three-way merge of the patch
+            sh(["git", "checkout", "--", "."], cwd=wt)
+            rc_ap, out = sh(["git", "apply", "-3", os.path.join(d, "patch.diff")], cwd=wt)
+            if rc_ap == 0 and "<<<<<<<" in sh("git diff", cwd=wt)[1]:
+                rc_ap = 1
         if rc_ap != 0:
             m["applies"] = False
             json.dump(m, open(mp(a.id), "w"), indent=1)
